@@ -642,6 +642,9 @@ func (envRemoteS) KeySpec() (signature.KeySpec, error) {
 	}
 	return theKeySpecS, nil
 }
+// nilCertS: the chain handed back by the external signer may end in a nil element (H_C16_jws_sign_nilcert)
+var nilCertS, nilCertReturnedS bool
+
 func (envRemoteS) Sign(payload []byte) ([]byte, []*x509.Certificate, error) {
 	if !wellBehavedS && rt.Choose("sign.err", 2) == 1 {
 		signErrS = true
@@ -658,6 +661,11 @@ func (envRemoteS) Sign(payload []byte) ([]byte, []*x509.Certificate, error) {
 	}
 	signerCertsS = nil
 	for i := 0; i < n; i++ {
+		if nilCertS && rt.Choose("cert.nil."+certNameS(i), 2) == 1 {
+			// an external signer (a plugin) that hands back a chain with a missing element
+			nilCertReturnedS = true
+			return sig, append(append([]*x509.Certificate{}, signerCertsS...), nil), nil
+		}
 		signerCertsS = append(signerCertsS, rt.Havoc[*x509.Certificate](certNameS(i)))
 	}
 	allCertsS = append(allCertsS, signerCertsS...)
